@@ -87,8 +87,8 @@ mut('c07-ensure-ascii-ignored', 'C07', 'yatiml/dumper.py',
     "                if event.tag == 'tag:yaml.org,2002:str':\n                    self.stream.write(json.dumps(\n                        event.value, ensure_ascii=True))",
     'ensure_ascii=False has no effect on strings')
 mut('c08-seasoning-error-escapes', 'C08', 'yatiml/loader.py',
-    "            except SeasoningError as e:\n                raise RecognitionError(\n                        '{}\\n{}'.format(node.start_mark, e.args[0]))",
-    "            except RecognitionError as e:\n                raise RecognitionError(\n                        '{}\\n{}'.format(node.start_mark, e.args[0]))",
+    "            except SeasoningError as e:\n                message = e.args[0] if e.args else (",
+    "            except RecognitionError as e:\n                message = e.args[0] if e.args else (",
     'SeasoningError from savorize is not converted')
 mut('c08-userstring-narrow-except', 'C08', 'yatiml/constructors.py',
     "            new_obj = self.class_(node.value)\n        except Exception as e:",
@@ -110,7 +110,7 @@ mut('c10-hasattr-savorize', 'C10', 'yatiml/loader.py',
     "        if '_yatiml_savorize' in expected_type.__dict__:", "        if hasattr(expected_type, '_yatiml_savorize'):",
     'inherited savorize hooks run for derived classes')
 mut('c10-sweeten-unregistered-bases', 'C10', 'yatiml/representers.py',
-    "            if base_class in dumper.yaml_representers:", "            if base_class is not object:",
+    "        if base_class in dumper.yaml_representers:", "        if base_class is not object:",
     'sweeten hooks of unregistered bases run')
 mut('c11-shared-registry', 'C11', 'yatiml/loader.py',
     "    _registered_classes = None      # type: ClassVar[Dict[str, Type]]",
@@ -121,8 +121,8 @@ mut('c11-shared-dumper', 'C11', 'yatiml/dumper.py',
     "    UserDumper = Dumper\n\n    add_to_dumper(UserDumper, list(args))\n\n    class DumpsFunction:",
     'dumps_function registers representers on the shared Dumper class')
 mut('c12-path-sink-drops-indent', 'C12', 'yatiml/dumper.py',
-    "                with sink.open('w') as f:\n                    yaml.dump(\n                            obj, f, Dumper=UserDumper,\n                            indent=indent, allow_unicode=not ensure_ascii)",
-    "                with sink.open('w') as f:\n                    yaml.dump(\n                            obj, f, Dumper=UserDumper,\n                            allow_unicode=not ensure_ascii)",
+    "                with sink.open('w', encoding='utf-8') as f:\n                    yaml.dump(\n                            obj, f, Dumper=UserDumper,\n                            indent=indent, allow_unicode=not ensure_ascii)",
+    "                with sink.open('w', encoding='utf-8') as f:\n                    yaml.dump(\n                            obj, f, Dumper=UserDumper,\n                            allow_unicode=not ensure_ascii)",
     'dump_json to a path ignores indent')
 mut('c13-no-mutable-sequence', 'C13', 'yatiml/util.py',
     "                    type_.__origin__ is abc.Sequence or\n                    type_.__origin__ is abc.MutableSequence))",
@@ -133,8 +133,8 @@ mut('c13-style-consulted', 'C13', 'yatiml/recognizer.py',
     "        if (isinstance(node, yaml.ScalarNode)\n                and not (expected_type is str and node.style == '|')\n                and node.tag == scalar_type_to_tag[expected_type]):",
     'literal-style scalars are not recognised as str')
 mut('c14-set-value-bool', 'C14', 'yatiml/helpers.py',
-    "        if isinstance(value, bool):\n            value_str = 'true' if value else 'false'\n        else:\n            value_str = str(value)\n        start_mark = self.yaml_node.start_mark",
-    "        value_str = str(value)\n        start_mark = self.yaml_node.start_mark",
+    "        if isinstance(value, bool):\n            value_str = 'true' if value else 'false'\n        elif isinstance(value, float):",
+    "        if isinstance(value, float):",
     "set_value(True) writes 'True'")
 mut('c14-rename-moves', 'C14', 'yatiml/helpers.py',
     "            if key_node.value == attribute:\n                key_node.value = new_name\n                break",
